@@ -63,7 +63,7 @@ def fl (init ops sched : String) (impl : List String) : String :=
 
 end Flags
 
-/-! ## part B: `hc|hd <cfgU> <cfgH> <initial word> <results s|f|t …> => <one octal digit per callback: changed*4+isHealthy*2+flagAfter> <un,hc|->` -/
+/-! ## part B: `hc|hd <cfgU> <cfgH> <initial word> <results s|f|t …> => <one octal digit per callback: changed*4+isHealthy*2+flagAfter> <un,hc|-> w=<word of the address afterwards>` -/
 section Thresholds
 open MosnVerif.Model.HealthCheck
 
@@ -104,7 +104,7 @@ def scriptOutcomes (script : List Char) : List Result :=
 
 def hc (kind : String) (cu ch f0 res : String) (impl : List String) : String :=
   match cu.toNat?, ch.toNat?, f0.toNat?, parseResults res, impl with
-  | some u, some h, some w0, some rs0, [tr, ctr] =>
+  | some u, some h, some w0, some rs0, [tr, ctr, fw] =>
     -- what reaches HandleSuccess/HandleFailure: directly the script (hd) / through the checker-loop model (hc)
     let rs := if kind == "hc" then scriptOutcomes res.toList else rs0
     -- w0 = the initial word of the address; bit 0 is FAILED_ACTIVE_HC, other bits belong to other conditions
@@ -112,10 +112,19 @@ def hc (kind : String) (cu ch f0 res : String) (impl : List String) : String :=
     let model := digits (runCfg u h flag0 rs)
     let st := finalSt (Gen.HealthCheck.effUnhealthyThreshold u) (Gen.HealthCheck.effHealthyThreshold h) (St.init flag0) rs
     let mctr := s!"{st.unHealthCount},{st.healthCount}"
-    let agree := model == tr && (ctr == "-" || ctr == mctr)
+    -- the word of the address afterwards: bit 0 as the checker left it, every other condition untouched
+    let outs := runCfg u h flag0 rs
+    let lastFlag := match outs.getLast? with
+      | some o => o.flagAfter
+      | none => flag0
+    let mword := s!"w={w0 / 2 * 2 + (if lastFlag then 1 else 0)}"
+    let agree := model == tr && (ctr == "-" || ctr == mctr) && fw == mword
     -- the property predicate: run-length reference, thresholds with the documented zero→1 default
-    let holds : Bool := digits (HealthCheck.spec (if u = 0 then 1 else u) (if h = 0 then 1 else h) flag0 [] rs0) == tr
-    s!"{if agree then "A" else "D"} {if holds then "S" else "V"} {model} {mctr}"
+    let holds : Bool := digits (HealthCheck.spec (if u = 0 then 1 else u) (if h = 0 then 1 else h) flag0 [] rs0) == tr &&
+      (match fw.splitOn "=" with
+       | ["w", n] => (n.toNat?.map (fun x => x / 2 == w0 / 2)).getD false   -- no other condition lost or invented
+       | _ => false)
+    s!"{if agree then "A" else "D"} {if holds then "S" else "V"} {model} {mctr} {mword}"
   | _, _, _, _, _ => "E E bad-case"
 
 end Thresholds
